@@ -188,6 +188,29 @@ def build_targets():
     T["TreeInfo.loads:stage2.mainimage"] = ti_extra("[stage2]\nmainimage = %s\n")
     T["TreeInfo.loads:media.discnum"] = ti_extra("[media]\ndiscnum = %s\ntotaldiscs = 1\n")
     T["TreeInfo.loads:variant.packages"] = ti_extra("[variant-Server-x]\nid = x\nuid = Server-x\nname = x\ntype = addon\nparent = Server\nrepository = %s\n")
+    def legacy_ti(template):
+        """The same fields in a pre-productmd file (no [header]): its reader has code paths of its own."""
+        def run(s):
+            s = s.replace("\n", " ").replace("\r", " ")
+            text = ("[general]\nfamily = Spacewalk\nversion = 2.1\nname = Spacewalk-2.1\narch = x86_64\ntimestamp = 1\nvariant = Server\n"
+                    "packagedir = Packages\nrepository = .\n" + template.replace("%s", s))
+            ti.TreeInfo().loads(text)
+        return run
+    T["legacy TreeInfo.loads:images.path"] = legacy_ti("[images-x86_64]\nkernel = %s\n")
+    T["legacy TreeInfo.loads:images.section"] = legacy_ti("[images-%s]\nkernel = vmlinuz\n")
+    T["legacy TreeInfo.loads:stage2.mainimage"] = legacy_ti("[stage2]\nmainimage = %s\n")
+    T["legacy TreeInfo.loads:checksums.path"] = legacy_ti("[checksums]\n%s = sha256:" + "a" * 64 + "\n")
+    T["legacy TreeInfo.loads:checksums.value"] = legacy_ti("[checksums]\nimages/boot.iso = %s\n")
+    T["legacy TreeInfo.loads:general.version"] = lambda s: ti.TreeInfo().loads(
+        "[general]\nfamily = Spacewalk\nversion = %s\narch = x86_64\ntimestamp = 1\nvariant = Server\n" % s.replace("\n", " "))
+    T["legacy TreeInfo.loads:general.family"] = lambda s: ti.TreeInfo().loads(
+        "[general]\nfamily = %s\nversion = 2.1\narch = x86_64\ntimestamp = 1\nvariant = Server\n" % s.replace("\n", " "))
+    T["legacy TreeInfo.loads:general.timestamp"] = lambda s: ti.TreeInfo().loads(
+        "[general]\nfamily = Spacewalk\nversion = 2.1\narch = x86_64\ntimestamp = %s\nvariant = Server\n" % s.replace("\n", " "))
+    T["legacy TreeInfo.loads:general.variant"] = lambda s: ti.TreeInfo().loads(
+        "[general]\nfamily = Spacewalk\nversion = 2.1\narch = x86_64\ntimestamp = 1\nvariant = %s\n" % s.replace("\n", " "))
+    T["legacy TreeInfo.loads:general.packagedir"] = lambda s: ti.TreeInfo().loads(
+        "[general]\nfamily = Spacewalk\nversion = 2.1\narch = x86_64\ntimestamp = 1\nvariant = Server\npackagedir = %s\n" % s.replace("\n", " "))
     T["DiscInfo.loads:description"] = lambda s: di.DiscInfo().loads("1.0\n" + s.replace("\n", " ") + "\nx86_64\nALL")
     T["DiscInfo.loads:arch"] = lambda s: di.DiscInfo().loads("1.0\nFedora\n" + s.replace("\n", " ") + "\nALL")
     T["ComposeInfo.loads:variant.uid"] = ci_loads(["payload", "variants", "Server", "uid"])
